@@ -90,6 +90,29 @@ def r1_r2(ctx):
                  loc, detail)
     else:
         ctx.ok(r1, "read_from_field#presence-range-end", detail)
+    # the bitmap skip covers every transmitted presence bit: set_pos(start + transmitted), not the clamped (known) count
+    skips = []
+    for body in bodies:
+        O = X.Origins(body, P)
+        for cs in body.calls():
+            if cs.name == "set_pos":
+                a = O.call_args(cs)
+                if len(a) > 1:
+                    skips.append((a[1], cs.loc()))
+    r6 = "C05.R6"
+    ctx.rule(r6, "bitmap skip: after the addition count is read, read_from_field moves the cursor by the *transmitted* count of "
+                 "presence bits (not by the number this schema knows): a newer sender's extra presence bits must not be taken for the "
+                 "first open-type length")
+    if not skips:
+        ctx.fail(r6, "anchor-lost:set_pos", "read_from_field no longer skips the presence bitmap with set_pos", loc)
+    for a, l in skips:
+        d6 = {"function": b.path, "set_pos_argument": X.render(a)[:200]}
+        if not mentions_call(a, COUNT_CALLS, not_under=("min", "max", "clamp")):
+            ctx.fail(r6, "read_from_field#bitmap-skip", "the presence bitmap is skipped by `%s`, which is not the transmitted addition count "
+                                                         "(unclamped): when the sender knows more additions than this schema the "
+                                                         "remaining presence bits are read as data" % X.render(a)[:90], l, d6)
+        else:
+            ctx.ok(r6, "read_from_field#bitmap-skip", d6)
     d2 = {"function": b.path, "uses_of_transmitted_count": sorted(set(uses))[:8], "retained_in": retained}
     if retained:
         ctx.ok(r2, "read_from_field#count-retained", d2)
